@@ -74,6 +74,8 @@ def k7_calls(isa, t, tier, rng, half=None):
     for i, n in enumerate(range(1, top + 1)):
         if half is not None and n % 2 != half:
             continue
+        if half is not None and t in ("int32_t", "int64_t") and n % 4 >= 2 and n not in (V - 1, V + 1, 2 * V + 1):
+            continue        # quick tier: the integer types take half of their share of the N sweep (C01 sweeps matmul in depth)
         fs = mm if full else [mm[i % 3]]
         for f in fs:
             m = rng.choice([1, 2, 3, 4, 5, 7, 8, 9, V + 1, 2 * V + 1])
@@ -203,7 +205,10 @@ def k7_groups(tier, seed):
         for t in types:
             # quick tier: the two element types of equal size share the `every extent` sweeps (odd / even extents)
             half = None if tier != "quick" else ((seed + (1 if t in ("int32_t", "int64_t") else 0)) % 2)
-            calls = k7_calls(isa, t, tier, rng, half)
+            # thorough: every extent of every family under sse2 / avx2 / avx512; the other flag sets (same kernels, other widths or
+            # helper branches) get the un-thinned sampled corpus
+            gen_tier = tier if (tier == "quick" or isa in ("sse2", "avx2", "avx512")) else "quick"
+            calls = k7_calls(isa, t, gen_tier, rng, half)
             if tier == "quick":
                 calls = thin(calls, 6 if isa == "scalar" else 3, seed)
             groups.append({"key": "k7/%s/%s" % (isa, t), "header": "guard_ops.h", "isa": isa, "opt": "-O2", "calls": calls,
@@ -211,7 +216,7 @@ def k7_groups(tier, seed):
     if tier == "quick":     # one configuration of the remaining families and the complex types
         for isa, t in [("avx", "float"), ("avx", "int32_t"), ("sse42", "float"), ("avx2", "std::complex<double>"), ("sse2", "std::complex<float>"),
                        ("avx512", "std::complex<double>")]:
-            calls = thin(k7_calls(isa, t, tier, rng), 5, seed)
+            calls = thin(k7_calls(isa, t, tier, rng, seed % 2), 5, seed)
             groups.append({"key": "k7/%s/%s" % (isa, t), "header": "guard_ops.h", "isa": isa, "opt": "-O2", "calls": calls,
                            "pre": "#define VG_SEED %du" % (seed & 0xffff)})
     return groups
@@ -264,7 +269,8 @@ def extra_k7_groups(tier, seed):
     for isa in ["avx2", "avx512"]:
         calls = []
         for t in FTYPES:
-            calls += thin(k7_calls(isa, t, "quick", rng, 0), 7, seed)
+            cs = thin(k7_calls(isa, t, "quick", rng, 0), 7, seed)
+            calls += [c for c in cs if "heap_new" in c] + [c for c in cs if "heap_new" not in c][seed % 3::3]
         groups.append({"key": "k7-cxx17/%s" % isa, "header": "guard_ops.h", "isa": isa, "opt": "-O2", "std": "c++17", "calls": calls, "pre": pre})
     bc = ["g_bounds2d<%s,%d,%d>();" % (t, m, n) for t in ["float", "int64_t"] for (m, n) in [(3, 4), (1, 1), (5, 2)]]
     groups.append({"key": "k7-checks/sse2", "header": "guard_ops.h", "isa": "sse2", "opt": "-O1", "defs": ["-DVG_CHECKS", "-DNDEBUG"] + CHECKS_ON, "calls": bc, "pre": pre})
